@@ -41,7 +41,11 @@ func run(r *core.R) {
 	}
 	n := r.Src.Range(1, maxEp, "n_episodes")
 	r.Cfg("episodes", n)
-	declare(r)
+	if r.Prop == "C43" {
+		declareRoutes(r)
+	} else {
+		declare(r)
+	}
 	var fps []string
 	for i := 0; i < n; i++ {
 		r.Logf("---- episode %d", i)
@@ -282,7 +286,7 @@ func headDiffs(d []string) string {
 
 // ---------------------------------------------------------------- model
 
-type model struct {
+type epModel struct {
 	weps      map[wepID]*proto.WorkloadEndpoint // latest delivered value of every live endpoint
 	feat      map[wepID]int                     // QoS feature bits the generator gave it
 	heps      map[string]*proto.HostEndpoint
@@ -306,7 +310,7 @@ func sortedIDs[V any](m map[wepID]V) []wepID {
 type sim struct {
 	r    *core.R
 	cfg  *runCfg
-	m    *model
+	m    *epModel
 	sut  *dp
 	ftx4 intdataplane.SimManager
 	ftx6 intdataplane.SimManager
@@ -968,7 +972,7 @@ func runEndpoints(r *core.R) string {
 	cfg.flowlogs = r.Src.Chance(200, "cfg_flowlogs")
 	cfg.spoof = r.Src.Chance(300, "cfg_spoof")
 	s := &sim{r: r, cfg: cfg, batch: map[wepID]int{}, lastMsg: map[wepID]googleproto.Message{},
-		m: &model{weps: map[wepID]*proto.WorkloadEndpoint{}, feat: map[wepID]int{}, heps: map[string]*proto.HostEndpoint{}, hepDSCP: map[string]bool{},
+		m: &epModel{weps: map[wepID]*proto.WorkloadEndpoint{}, feat: map[wepID]int{}, heps: map[string]*proto.HostEndpoint{}, hepDSCP: map[string]bool{},
 			policies: map[string]string{}, ifState: map[string]ifacemonitor.State{}, hostAddrs: map[string][]string{}}}
 	nIDs := r.Src.Range(2, len(idUniverse), "n_endpoints")
 	nIf := r.Src.Range(1, len(ifaceUniverse), "n_ifaces")
